@@ -10,7 +10,7 @@ EXPLANATION = ('Static rules on debounce, throttle, sample and the buffers: R-a 
                'incoming item (or a clone) ends up in at most one emission sink (delivered downstream, or parked in the pending cell that is '
                'later flushed), a take() of that cell cancelling the parked copy; R-b every buffer emission is guarded by !is_empty(); R-c '
                'complete() flushes the pending content before completing; R-d timer tasks move the pending content out with take(), never '
-               'clone it. Registration of the task handles is C02.U1. R-g buffers never exceed the count limit: the shared BufferWithCountObserver releases and empties its buffer exactly when its length reaches count (same rule as C03.S10); R-e debounce protocol (provenance dataflow): every item replaces the parked one, cancels the timer of its predecessor and arms a new one with the configured delay, whose handle is kept; R-f throttle protocol: an item goes out on the leading edge only together with opening a window, the item that went out is not also kept for the trailing edge, inside a window the newest item is parked, the window timer is armed with the selector\'s duration for that item and its handle kept. Does not decide '
+               'clone it. Registration of the task handles is C02.U1. R-h window state (timer slot, candidate, buffer) is created per subscription, the operator values of debounce/throttle/sample/buffer carry no shared cell (same rule as C13.Z3); R-g buffers never exceed the count limit: the shared BufferWithCountObserver releases and empties its buffer exactly when its length reaches count (same rule as C03.S10); R-e debounce protocol (provenance dataflow): every item replaces the parked one, cancels the timer of its predecessor and arms a new one with the configured delay, whose handle is kept; R-f throttle protocol: an item goes out on the leading edge only together with opening a window, the item that went out is not also kept for the trailing edge, inside a window the newest item is parked, the window timer is armed with the selector\'s duration for that item and its handle kept. Does not decide '
                'order under same-instant events.')
 TECHNIQUE = 'static analysis: linear item-flow rules and path-sensitive provenance dataflow (protocol of debounce/throttle) over MIR event graphs (custom rustc_private driver)'
 ASSUMPTIONS = ['bool configuration fields that next() never writes have one value along a path (correlated branches are pruned)']
@@ -69,7 +69,7 @@ def check(cx):
 
 
 def _check_own(cx):
-    return ra(cx) + ([] if cx.control else rb(cx) + rc(cx) + rg(cx)) + rd(cx) + re_(cx) + rf(cx)
+    return ra(cx) + ([] if cx.control else rb(cx) + rc(cx) + rg(cx) + rh(cx)) + rd(cx) + re_(cx) + rf(cx)
 
 
 def _is_item(e):
@@ -385,6 +385,24 @@ def rf(cx):
     if n < 1:
         res.append(Finding(ID, 'R-f', 'floor', False, 'ThrottleObserver not found'))
     return res
+
+
+_RATE_MODS = ('ops::debounce::', 'ops::throttle::', 'ops::sample::', 'ops::buffer::')
+
+
+def rh(cx):
+    """every subscription has its own window state: the pending-timer slot, the trailing candidate and the buffers are created per
+    subscription (in actual_subscribe), the operator value carries no shared cell (same rule as C13.Z3) — with one slot shared by the
+    clones of an operator, an item (or unsubscribe) on one subscription cancels the pending timer of the other, whose item is then
+    not delivered although nothing newer arrived on its own source"""
+    from . import c13
+    out = []
+    for f in c13.z3(cx):
+        if f.key.startswith(_RATE_MODS) or (f.key.startswith('cell created in') and any(m in f.key for m in _RATE_MODS)):
+            out.append(Finding(ID, 'R-h', f.key, f.ok, f.msg, f.loc, f.witness))
+    if len([f for f in out if f.ok]) < 4 and not [f for f in out if not f.ok]:
+        out.append(Finding(ID, 'R-h', 'floor', False, 'expected the debounce/throttle/sample/buffer operator types, found %d' % len(out)))
+    return out
 
 
 def rg(cx):
